@@ -69,10 +69,14 @@ pub fn read(mut reader: impl io::Read) -> io::Result<Value> {
 fn read_typed<T: Element>(header: &Header, mut reader: impl io::Read) -> io::Result<Tensor<T>> {
     // Check the product of the non-zero dimensions, so that a zero dimension
     // cannot mask an overflow in the strides of the remaining dimensions.
+    // Tensors are limited to `isize::MAX` elements, counted this way.
     header
         .shape
         .iter()
-        .try_fold(1usize, |acc, &dim| acc.checked_mul(dim.max(1)))
+        .try_fold(1usize, |acc, &dim| {
+            acc.checked_mul(dim.max(1))
+                .filter(|n| *n <= isize::MAX as usize)
+        })
         .ok_or_else(|| invalid_data("array element count overflows"))?;
     let n_elements: usize = header.shape.iter().product();
     let n_bytes = n_elements
@@ -112,7 +116,8 @@ fn read_typed<T: Element>(header: &Header, mut reader: impl io::Read) -> io::Res
         values
     };
 
-    Ok(Tensor::from_data(&header.shape, values))
+    Tensor::try_from_data(header.shape.as_slice(), values)
+        .map_err(|err| invalid_data(format!("invalid npy array shape: {err}")))
 }
 
 /// Read a tensor from a file.
